@@ -75,15 +75,18 @@ type PCase struct {
 }
 
 type PJob struct {
-	Mode     string  `json:"mode"`
-	Seed     uint64  `json:"seed"`
-	From     int     `json:"from"`
-	To       int     `json:"to"`
-	Explicit []PCase `json:"explicit,omitempty"`
-	Workload string  `json:"workload"`
-	Race     bool    `json:"race"`
-	KeepLog  bool    `json:"keep_log"`
-	MaxViol  int     `json:"max_viol"`
+	Mode     string   `json:"mode"`
+	Seed     uint64   `json:"seed"`
+	From     int      `json:"from"`
+	To       int      `json:"to"`
+	Explicit []PCase  `json:"explicit,omitempty"`
+	Workload string   `json:"workload"`
+	Race     bool     `json:"race"`
+	KeepLog  bool     `json:"keep_log"`
+	MaxViol  int      `json:"max_viol"`
+	RefSigs  bool     `json:"ref_sigs"`
+	Plain    bool     `json:"-"` // run on the unwoven runner
+	Env      []string `json:"-"` // extra environment of the worker process
 }
 
 type POutcome struct {
@@ -114,6 +117,7 @@ type PJobResult struct {
 	Outcomes   []POutcome     `json:"outcomes,omitempty"`
 	GoidFast   bool           `json:"goid_fast"`
 	NSites     int            `json:"nsites"`
+	RefSigs    []uint64       `json:"ref_sigs,omitempty"`
 }
 
 // GrammarSpec is a grammar text before emission.
@@ -143,19 +147,20 @@ func pkgName(base string, opts []string) string {
 var allOptSets = [][]string{{}, {"-inline"}, {"-switch"}, {"-inline", "-switch"}}
 
 type parsimRig struct {
-	env        *Env
-	sc         *Scratch
-	repo       string // pristine copy (+ unwoven workload, race runner)
-	wrepo      string // woven workload
-	peg        string
-	runner     string
-	raceRunner string
-	workload   string
-	infos      []GrammarInfo
-	weaver     *weave.Weaver
-	rejected   map[string]int
-	jobSeq     int
-	mu         sync.Mutex
+	env         *Env
+	sc          *Scratch
+	repo        string // pristine copy (+ unwoven workload, race runner)
+	wrepo       string // woven workload
+	peg         string
+	runner      string
+	raceRunner  string
+	plainRunner string // unwoven, no race detector: validates the weaving
+	workload    string
+	infos       []GrammarInfo
+	weaver      *weave.Weaver
+	rejected    map[string]int
+	jobSeq      int
+	mu          sync.Mutex
 }
 
 var driverTmpl = template.Must(template.New("driver").Parse(`// Code generated by /verif (parsim driver). DO NOT EDIT.
@@ -165,6 +170,7 @@ package {{.Pkg}}
 import (
 	"fmt"
 	"strings"
+	"sync"
 
 	zzrt "github.com/pointlander/peg/zzsim/simrt"
 )
@@ -195,19 +201,41 @@ type zzInst[U Uint] struct {
 func zzNew[U Uint](cfg zzrt.InstCfg, buffer string) zzrt.Instance {
 	h := &zzrt.Host{Salt: {{.Salt}}}
 	p := &{{.Struct}}[U]{Buffer: buffer{{if .HasHost}}, H: h{{end}}}
+	build := func() []func(*{{.Struct}}[U]) error {
+		var opts []func(*{{.Struct}}[U]) error
+		if cfg.Size > 0 {
+			opts = append(opts, Size[U](cfg.Size))
+		}
+		if cfg.NoMemo {
+			opts = append(opts, DisableMemoize[U]())
+		}
+		if cfg.Pretty {
+			opts = append(opts, Pretty[U](true))
+		}
+		return opts
+	}
 	var opts []func(*{{.Struct}}[U]) error
-	if cfg.Size > 0 {
-		opts = append(opts, Size[U](cfg.Size))
-	}
-	if cfg.NoMemo {
-		opts = append(opts, DisableMemoize[U]())
-	}
-	if cfg.Pretty {
-		opts = append(opts, Pretty[U](true))
+	if cfg.ShareOpts {
+		key := fmt.Sprintf("%T|%d|%v|%v", *new(U), cfg.Size, cfg.NoMemo, cfg.Pretty)
+		zzOptMu.Lock()
+		if v, ok := zzOptCache[key]; ok {
+			opts = v.([]func(*{{.Struct}}[U]) error)
+		} else {
+			opts = build()
+			zzOptCache[key] = opts
+		}
+		zzOptMu.Unlock()
+	} else {
+		opts = build()
 	}
 	_ = p.Init(opts...)
 	return &zzInst[U]{p, h}
 }
+
+var (
+	zzOptMu    sync.Mutex
+	zzOptCache = map[string]any{}
+)
 
 func (i *zzInst[U]) Host() *zzrt.Host   { return i.h }
 func (i *zzInst[U]) SetBuffer(s string) { i.p.Buffer = s }
@@ -443,6 +471,14 @@ func buildParsim(e *Env, sc *Scratch, specs []GrammarSpec, wantRace bool, wantWo
 			}
 		})
 	}
+	if wantWoven {
+		rig.plainRunner = sc.Path("parsim-plain.test")
+		wg.Go(func() {
+			if o, err := e.Go(rig.repo, e.GoEnv(), "test", "-c", "-trimpath", "-tags", "zzsim", "-o", rig.plainRunner, "./zzsim/parsim"); err != nil {
+				berr = infra("building the unwoven runner failed: %v\n%s", err, clipStr(o, 4000))
+			}
+		})
+	}
 	if wantRace {
 		wg.Go(func() {
 			if o, err := e.Go(rig.repo, e.GoEnvRace(), "test", "-c", "-trimpath", "-race", "-tags", "zzsim", "-o", rig.raceRunner, "./zzsim/parsim"); err != nil {
@@ -482,7 +518,11 @@ func (rig *parsimRig) runJob(job *PJob, race bool, timeout time.Duration) (*PJob
 	defer os.Remove(jp)
 	defer os.Remove(op)
 	bin := rig.runner
+	if job.Plain {
+		bin = rig.plainRunner
+	}
 	env := append(os.Environ(), "VERIF_JOB="+jp, "VERIF_OUT="+op)
+	env = append(env, job.Env...)
 	if race {
 		bin = rig.raceRunner
 		env = append(env, "GORACE=halt_on_error=0 exitcode=66")
